@@ -351,8 +351,9 @@ Section Generic.
       by (apply lookup_mix_preset_wins; try assumption; now apply atom_not_obj).
     apply (keys_with_option_found true p k dflt dom v true o s); [exact Hm|now apply atom_not_str|].
     unfold preset_drops. destruct k as [|s0 k0]; [congruence|]. rewrite Hl.
+    cbn [with_opts]. rewrite Hm.
     destruct (lookup (s0 :: k0) (JObj o)); [|reflexivity|congruence].
-    cbn [with_opts]. rewrite Hm. now rewrite json_eq_atom.
+    now rewrite json_eq_atom.
   Qed.
 
   (** a pre-set SECTION the caller partly supplies (the merged section differs from the pre-set
@@ -366,8 +367,8 @@ Section Generic.
     intros Hw Hne Hn Hlp Hlo Hneq.
     assert (Hm : lookup k (JObj (mix o p)) = Found (JObj (mix so sp))) by now apply lookup_mix_sections_merge.
     apply (keys_with_option_found true p k dflt dom (JObj (mix so sp)) false o s); [exact Hm|discriminate|].
-    unfold preset_drops. destruct k as [|s0 k0]; [congruence|]. rewrite Hlp, Hlo.
-    cbn [with_opts]. rewrite Hm. now rewrite Hneq.
+    unfold preset_drops. destruct k as [|s0 k0]; [congruence|]. rewrite Hlp.
+    cbn [with_opts]. rewrite Hm, Hlo. now rewrite Hneq.
   Qed.
 
   (** a key the forced pre-set does not touch is reported as without the wrapper *)
@@ -394,7 +395,8 @@ Section Generic.
     assert (Hm : lookup k (JObj (mix p o)) = Found v)
       by (apply lookup_mix_preset_wins; try assumption; now apply atom_not_obj).
     apply (keys_with_option_found false p k dflt dom v false o s); [exact Hm|now apply atom_not_str|].
-    unfold preset_drops. destruct k as [|s0 k0]; [congruence|]. rewrite Hl.
+    unfold preset_drops. destruct k as [|s0 k0]; [congruence|].
+    cbn [with_opts]. rewrite Hm, Hl.
     destruct (lookup (s0 :: k0) (JObj p)); [reflexivity|reflexivity|congruence].
   Qed.
 
@@ -409,7 +411,8 @@ Section Generic.
       by (rewrite lookup_mix_untouched_deep; try assumption; rewrite Hl; discriminate).
     apply (keys_with_option_found false p k dflt dom v true o s); [exact Hm|exact Hs|].
     unfold preset_drops. pose proof (untouched_nonempty _ _ Hu) as Hne.
-    destruct k as [|s0 k0]; [congruence|]. now rewrite Hl, (untouched_absent _ _ Hn Hu).
+    destruct k as [|s0 k0]; [congruence|]. rewrite Hl. cbn [with_opts]. rewrite Hm.
+    now rewrite (untouched_absent _ _ Hn Hu).
   Qed.
 End Generic.
 
